@@ -2,7 +2,7 @@
 // X_recv_set (RFC 5348 section 4.3): never empty once initialised, whatever the feedback.
 use super::*;
 
-fn any_set() -> RecvRateSet {
+pub(crate) fn any_set() -> RecvRateSet {
     // any set of 1..=2 entries with timestamps not in the future
     let mut s = RecvRateSet::new();
     let two: bool = kani::any();
@@ -11,6 +11,13 @@ fn any_set() -> RecvRateSet {
         s.entries.push(RecvEntry { value: kani::any(), timestamp_ms: kani::any(), is_initial: false });
     }
     s
+}
+
+pub(crate) fn timestamps_le(s: &RecvRateSet, now: u64) -> bool {
+    let mut ok = true;
+    let mut i = 0;
+    while i < s.entries.len() { if s.entries[i].timestamp_ms > now { ok = false; } i += 1; }
+    ok
 }
 
 //@h props=C03,C14 tier=quick timeout=600 role=recv-rate-set-step
